@@ -4,9 +4,12 @@ import (
 	"context"
 	"fmt"
 	"io"
+	"runtime"
+	"strings"
 	"sync"
 	"sync/atomic"
 	"testing"
+	"time"
 
 	"github.com/libp2p/go-libp2p/core/network"
 	"github.com/libp2p/go-libp2p/p2p/muxer/yamux"
@@ -33,12 +36,16 @@ type halfStream interface {
 	io.Writer
 	CloseWrite() error
 	Close() error
+	Reset() error
+	SetReadDeadline(time.Time) error
+	SetWriteDeadline(time.Time) error
 }
 
 // streamEnd is an opened or accepted stream plus the index of the plan it belongs to.
 type streamsOutcome struct {
 	rd                  [][2]readResult // [stream][0 = fwd, 1 = rev]
 	wr                  [][2]int
+	ws                  [][2]writeResult
 	readAfterCloseWrite int // streams on which a side received bytes after its own CloseWrite had returned
 }
 
@@ -47,9 +54,14 @@ type streamAcceptor func(idx int) (halfStream, error)
 
 var yamuxTotals = []int{65524, 65525, 65523, 262144, 262145, 262143, 262144 + 65524, 2 * 65524, 2*65524 + 1}
 
-func drawStreams(rt *rapid.T, maxStreams, big int) []streamPlan {
+// drawStreams draws the stream plans of a case. pollCap > 0: the layer's streams are driven
+// with deadlines (write deadline + resume, polling / short read deadlines, slow readers)
+// in 2 of 5 cases; pollCap is the largest payload a polling reader is given (see
+// drawStreamDeadlines).
+func drawStreams(rt *rapid.T, maxStreams, big int, pollCap int) []streamPlan {
 	n := rapid.IntRange(1, maxStreams).Draw(rt, "nstreams")
 	plans := make([]streamPlan, n)
+	deadlines := pollCap > 0 && rapid.IntRange(0, 4).Draw(rt, "dl-case") < 2
 	for i := range plans {
 		l := fmt.Sprintf("s%d", i)
 		plans[i].Opener = rapid.IntRange(0, 1).Draw(rt, l+"-opener")
@@ -63,6 +75,10 @@ func drawStreams(rt *rapid.T, maxStreams, big int) []streamPlan {
 			d.Total = rapid.SampledFrom(yamuxTotals).Draw(rt, l+"-ytotal")
 			d.Writes = drawWrites(rt, l+"y", d.Total)
 		}
+		if deadlines {
+			drawStreamDeadlines(rt, l+"f", &plans[i].Fwd, pollCap)
+			drawStreamDeadlines(rt, l+"r", &plans[i].Rev, pollCap)
+		}
 	}
 	return plans
 }
@@ -73,12 +89,33 @@ func drawStreams(rt *rapid.T, maxStreams, big int) []streamPlan {
 // endpoint opens, so streams are accepted in the order they were opened; layers that can
 // name streams ignore idx ordering and route by name).
 func runStreams(f failer, env runEnv, layer string, key uint64, plans []streamPlan, frameMax int, open [2]streamOpener, accept [2]streamAcceptor) streamsOutcome {
-	out := streamsOutcome{rd: make([][2]readResult, len(plans)), wr: make([][2]int, len(plans))}
-	sk := &sink{}
+	out := streamsOutcome{rd: make([][2]readResult, len(plans)), wr: make([][2]int, len(plans)), ws: make([][2]writeResult, len(plans))}
+	sk := &sink{failed: make(chan struct{})}
 	done := make(chan struct{}, 4*len(plans)+4)
 	workers := 0
 	var mu sync.Mutex
 	var all []halfStream
+	aborted := false
+	// register notes a stream for the final clean-up; once the case has failed every stream is
+	// reset right away so that no worker stays blocked on a peer that has already given up
+	register := func(s halfStream) {
+		mu.Lock()
+		all = append(all, s)
+		dead := aborted
+		mu.Unlock()
+		if dead {
+			s.Reset()
+		}
+	}
+	abort := func() {
+		mu.Lock()
+		aborted = true
+		ss := append([]halfStream(nil), all...)
+		mu.Unlock()
+		for _, s := range ss {
+			s.Reset()
+		}
+	}
 	var afterClose atomic.Int32
 	ctx := context.Background()
 
@@ -92,8 +129,10 @@ func runStreams(f failer, env runEnv, layer string, key uint64, plans []streamPl
 	// one direction of one stream, on the side that writes it
 	writerRest := func(s halfStream, idx, dir int, p dirPlan, data []byte, startWrite, off int, closed *atomic.Bool) {
 		who := fmt.Sprintf("%s stream %d dir %d writer", layer, idx, dir)
-		rest := dirPlan{Writes: p.Writes[startWrite:]}
-		n := runWriter(s, rest, data[off:], sk, who, false)
+		rest := dirPlan{Writes: p.Writes[startWrite:], DL: p.DL}
+		wres := runWriter(s, rest, data[off:], sk, who, false)
+		n := wres.n
+		out.ws[idx][dir].add(wres)
 		out.wr[idx][dir] = off + n
 		if off+n != p.Total {
 			return
@@ -106,7 +145,7 @@ func runStreams(f failer, env runEnv, layer string, key uint64, plans []streamPl
 	reader := func(s halfStream, idx, dir int, p dirPlan, data []byte, localClosed *atomic.Bool) {
 		who := fmt.Sprintf("%s stream %d dir %d reader", layer, idx, dir)
 		r := &afterCloseReader{r: s, closed: localClosed}
-		res := runReader(r, p, p.frames(frameMax), data, sk, who, readerCfg{mode: readUntilEOF, frameMax: frameMax})
+		res := runReader(r, p, p.frames(frameMax), data, sk, who, readerCfg{mode: readUntilEOF, frameMax: frameMax, setDL: s.SetReadDeadline})
 		out.rd[idx][dir] = res
 		if r.seen {
 			afterClose.Add(1)
@@ -134,9 +173,7 @@ func runStreams(f failer, env runEnv, layer string, key uint64, plans []streamPl
 					}
 					return
 				}
-				mu.Lock()
-				all = append(all, s)
-				mu.Unlock()
+				register(s)
 				p := plans[idx]
 				data := payload(key, idx, 0, p.Fwd.Total)
 				closed := &atomic.Bool{}
@@ -145,7 +182,9 @@ func runStreams(f failer, env runEnv, layer string, key uint64, plans []streamPl
 				who := fmt.Sprintf("%s stream %d dir 0 writer", layer, idx)
 				for wi < len(p.Fwd.Writes) && off == 0 {
 					sz := p.Fwd.Writes[wi]
-					off = runWriter(s, dirPlan{Writes: []int{sz}}, data, sk, who, false)
+					wres := runWriter(s, dirPlan{Writes: []int{sz}, DL: p.Fwd.DL}, data, sk, who, false)
+					out.ws[idx][0].add(wres)
+					off = wres.n
 					wi++
 					if off != sz {
 						break
@@ -175,9 +214,7 @@ func runStreams(f failer, env runEnv, layer string, key uint64, plans []streamPl
 					}
 					return
 				}
-				mu.Lock()
-				all = append(all, s)
-				mu.Unlock()
+				register(s)
 				p := plans[idx]
 				closed := &atomic.Bool{}
 				spawn("writer", func() { writerRest(s, idx, 1, p.Rev, payload(key, idx, 1, p.Rev.Total), 0, 0, closed) })
@@ -185,14 +222,45 @@ func runStreams(f failer, env runEnv, layer string, key uint64, plans []streamPl
 			}
 		})
 	}
-	ok := env.waitDone(done, workers)
+	// wait for the workers; at the first recorded failure (or after a virtual hour) reset
+	// every stream: the verdict is in, the remaining workers only have to return
+	ok := true
+	stallDump := ""
+	{
+		limit := time.Hour
+		if env.real {
+			limit = 3 * time.Minute
+		}
+		timer := time.NewTimer(limit)
+		failed := sk.failed
+		for remaining := workers; remaining > 0; {
+			select {
+			case <-done:
+				remaining--
+			case <-failed:
+				failed = nil
+				abort()
+			case <-timer.C:
+				if !ok { // second expiry: workers survive a reset of their streams
+					remaining = 0
+					break
+				}
+				ok = false
+				stallDump = workerStacks()
+				abort()
+				timer.Reset(time.Minute)
+			}
+		}
+		timer.Stop()
+	}
 	mu.Lock()
-	for _, s := range all {
+	ss := append([]halfStream(nil), all...)
+	mu.Unlock()
+	for _, s := range ss {
 		s.Close()
 	}
-	mu.Unlock()
 	if !ok {
-		env.stalled(f, "%s: stream workers did not finish within a virtual hour (first failure so far: %q)", layer, sk.get())
+		env.stalled(f, "%s: stream workers did not finish within a virtual hour (first failure so far: %q)\nworkers at that moment:\n%s", layer, sk.get(), stallDump)
 	}
 	if msg := sk.get(); msg != "" {
 		f.Fatalf("%s", msg)
@@ -209,6 +277,20 @@ func runStreams(f failer, env runEnv, layer string, key uint64, plans []streamPl
 	}
 	out.readAfterCloseWrite = int(afterClose.Load())
 	return out
+}
+
+// workerStacks returns the stacks of the goroutines that are inside this package's
+// reader / writer workers (diagnostics for a stalled case).
+func workerStacks() string {
+	buf := make([]byte, 8<<20)
+	buf = buf[:runtime.Stack(buf, true)]
+	var out []string
+	for _, g := range strings.Split(string(buf), "\n\n") {
+		if strings.Contains(g, "c02.runReader") || strings.Contains(g, "c02.runWriter") || strings.Contains(g, "c02.runStreams.func") {
+			out = append(out, g)
+		}
+	}
+	return strings.Join(out, "\n\n")
 }
 
 // afterCloseReader notes whether bytes arrived after the local side had half-closed.
@@ -256,6 +338,7 @@ func streamLabels(plans []streamPlan, out streamsOutcome, frameMax int) (labels 
 			if out.rd[i][d].zeroReads > 0 {
 				add("saw-Read=(0,nil)")
 			}
+			dlLabels(add, dp, out.ws[i][d], out.rd[i][d], true)
 		}
 		if p.Fwd.Total == 0 {
 			add("fin-with-syn")
@@ -327,7 +410,7 @@ func TestL4YamuxStreams(t *testing.T) {
 		c.Key = rapid.Uint64().Draw(rt, "key")
 		c.Cap = rapid.SampledFrom(capSizes).Draw(rt, "cap")
 		c.Chop[0], c.Chop[1] = drawChop(rt, "chopA"), drawChop(rt, "chopB")
-		c.Streams = drawStreams(rt, 5, 1)
+		c.Streams = drawStreams(rt, 5, 1, yamuxWindow)
 		var out streamsOutcome
 		hx.Bubble(t, rt, func() {
 			ma, mb := memnet.Pipe(memnet.Options{Capacity: c.Cap})
